@@ -24,7 +24,8 @@ def rungs(quick: bool):
 def families(quick: bool):
     f = [("ideal", "pvt_gas", 100.0, 8000.0), ("ideal", "pvt_gas", 7200.0, 8000.0),
          ("single", "synth_alpha:constant", 1000.0, 8000.0), ("single", "synth_alpha:constant", 7600.0, 8000.0),
-         ("single", "pvt_gas", 1000.0, 8000.0), ("single", "synth_alpha:rising", 3000.0, 9000.0)]
+         ("single", "pvt_gas", 1000.0, 8000.0), ("single", "synth_alpha:rising", 3000.0, 9000.0),
+         ("single", "synth_alpha:constant", 9999.0, 10000.0)]   # p_f/p_i = 0.9999: a tiny drawdown must converge just as well
     if not quick:
         f += [("ideal", "pvt_gas", 4000.0, 8000.0), ("single", "pvt_gas", 4000.0, 8000.0), ("single", "pvt_gas", 7900.0, 8000.0),
               ("single", "synth_alpha:falling", 500.0, 9000.0), ("single", "synth_alpha:kinked", 2000.0, 10000.0),
